@@ -253,6 +253,7 @@ func (e *Engine) logAbs(format string, a ...interface{}) {
 
 type fnCtx struct {
 	alias       map[string]string // contract name of a renamed variable -> its current name
+	evalHeader  *ssa.BasicBlock   // loop header whose clauses are being evaluated
 	eng         *Engine
 	fn          *ssa.Function
 	con         *Contract
